@@ -866,7 +866,15 @@ static carquet_status_t load_next_page_mmap(
         }
     }
 
-    if (page_header.type != CARQUET_PAGE_DATA && page_header.type != CARQUET_PAGE_DATA_V2) {
+    /* Data page v2 has a different body layout (unprefixed, uncompressed
+     * levels in front of the values) that is not implemented: decoding it
+     * with the v1 layout would return wrong values. */
+    if (page_header.type == CARQUET_PAGE_DATA_V2) {
+        CARQUET_SET_ERROR(error, CARQUET_ERROR_NOT_IMPLEMENTED, "Data page v2 is not supported");
+        return CARQUET_ERROR_NOT_IMPLEMENTED;
+    }
+
+    if (page_header.type != CARQUET_PAGE_DATA) {
         CARQUET_SET_ERROR(error, CARQUET_ERROR_INVALID_PAGE, "Expected data page");
         return CARQUET_ERROR_INVALID_PAGE;
     }
@@ -1079,7 +1087,15 @@ static carquet_status_t load_next_page_fread(
         }
     }
 
-    if (page_header.type != CARQUET_PAGE_DATA && page_header.type != CARQUET_PAGE_DATA_V2) {
+    /* Data page v2 has a different body layout (unprefixed, uncompressed
+     * levels in front of the values) that is not implemented: decoding it
+     * with the v1 layout would return wrong values. */
+    if (page_header.type == CARQUET_PAGE_DATA_V2) {
+        CARQUET_SET_ERROR(error, CARQUET_ERROR_NOT_IMPLEMENTED, "Data page v2 is not supported");
+        return CARQUET_ERROR_NOT_IMPLEMENTED;
+    }
+
+    if (page_header.type != CARQUET_PAGE_DATA) {
         CARQUET_SET_ERROR(error, CARQUET_ERROR_INVALID_PAGE, "Expected data page");
         return CARQUET_ERROR_INVALID_PAGE;
     }
